@@ -51,19 +51,19 @@ def jobs_for(tier):
     thorough = tier == "thorough"
     J = []
     up = 1100
-    lens128 = list(range(0, up + 1)) if thorough else boundary(128, up)
+    lens128 = list(range(0, up + 1))
     for n in lens128:
         J.append({"fn": "blake2b", "msg": det(n, "b2"), "key": [], "outlen": 32, "salt": [], "personal": []})
     for (ol, kl) in [(16, 0), (64, 0), (16, 16), (64, 64), (17, 33), (32, 32), (31, 17), (48, 64)]:
         for n in ([0, 1, 127, 128, 129, 255, 256, 257, 1100] if not thorough else boundary(128, up)):
             J.append({"fn": "blake2b", "msg": det(n, "b2k"), "key": det(kl, "key"), "outlen": ol, "salt": [], "personal": []})
-    for n in (list(range(0, up + 1, 1)) if thorough else boundary(128, up)):
+    for n in range(0, up + 1):
         J.append({"fn": "sha512", "msg": det(n, "sha")})
     for n in boundary(128, up if thorough else 400):
         J.append({"fn": "hmacsha512256", "key": det(32, "hk"), "msg": det(n, "hm")})
-    for n in (range(0, up + 1) if thorough else boundary(8, 200) + [1100]):
+    for n in range(0, up + 1):
         J.append({"fn": "siphash24", "key": det(16, "sk"), "msg": det(n, "sip")})
-    for n in (range(0, up + 1) if thorough else boundary(16, 300) + [1100]):
+    for n in range(0, up + 1):
         J.append({"fn": "poly1305", "key": det(32, "pk"), "msg": det(n, "poly")})
         J.append({"fn": "poly1305", "key": [255, 255, 255, 15, 252, 255, 255, 15, 252, 255, 255, 15, 252, 255, 255, 15] + [255] * 16, "msg": [255] * n})
     for i in range(40 if thorough else 12):
